@@ -22,6 +22,7 @@ func c04Weights() hWeights {
 func c04Run(sc *hScenario) (*hViolation, map[string]bool) {
 	s := newSession(sc, "C04")
 	s.cfg.Dcp.Group.Membership.RebalanceDelay = time.Millisecond
+	lostAt := map[uint16]uint64{}
 	if sc.File {
 		// the file backend knows only the vBuckets it was last given: a member can hand vBuckets over, but a rebalance onto
 		// vBuckets missing from its file is refused at start-up (C15). Ranges therefore only shrink here.
@@ -29,6 +30,16 @@ func c04Run(sc *hScenario) (*hViolation, map[string]bool) {
 			cur := s.prevHi - s.prevLo + 1
 			size := 1 + ((op.Gap%cur)+cur)%cur
 			lo := s.prevLo + ((op.N%(cur-size+1))+(cur-size+1))%(cur-size+1)
+			// what the file holds for the vBuckets handed over, at the moment they are handed over
+			if st, _, err := metadata.NewFSMetadata(s.cfg).Load(nil, ""); err == nil && st != nil {
+				for vb := s.prevLo; vb <= s.prevHi; vb++ {
+					if vb < lo || vb > lo+size-1 {
+						if doc, ok := st.Load(uint16(vb)); ok && doc != nil && doc.Checkpoint != nil {
+							lostAt[uint16(vb)] = doc.Checkpoint.SeqNo
+						}
+					}
+				}
+			}
 			return lo, lo + size - 1
 		}
 	}
@@ -98,8 +109,10 @@ func c04Run(sc *hScenario) (*hViolation, map[string]bool) {
 					if anyFlag && doc.Checkpoint.SeqNo != m.maxSettle {
 						s.fail("C04", "vb %d: the next save (file backend) wrote seq %d, tracked position is %d", vb, doc.Checkpoint.SeqNo, m.maxSettle)
 					}
-				} else if want, ok := s.saved[vb]; ok && doc.Checkpoint.SeqNo != want.Seq {
-					s.fail("C04", "vb %d is not owned by this member any more, yet its checkpoint in the file changed from seq %d to %d", vb, want.Seq, doc.Checkpoint.SeqNo)
+				} else if want, ok := lostAt[vb]; ok && doc.Checkpoint.SeqNo != want {
+					// (compared with what the file held when the vBucket was handed over - not with the model's idea of the
+					// last save: a Save() with nothing flagged still rewrites the whole file)
+					s.fail("C04", "vb %d is not owned by this member any more, yet its checkpoint in the file changed from seq %d to %d", vb, want, doc.Checkpoint.SeqNo)
 				}
 				return true
 			})
